@@ -813,3 +813,20 @@ Definition einterp (r : eres) (s : sval) (l : obj) : list sval :=
   | EBoolCompl => [plain (VKnown (bool_compl l))]
   | EEnumCompl => other_members (class_of l) (enum_size (class_of l)) (fun m => obj_eqb m l)
   end.
+
+(* ------------------------------------------------------------------ *)
+(* stored conditions: FunctionScope._add_single_constraint.  A constraint remembers the definitions
+   of x that were current when its condition was evaluated ([cons]); when the program later branches
+   on the stored result, the constraint is applied to x only if every definition that can reach the
+   branch ([cur]) is one of them — otherwise x may hold an object the condition never saw. *)
+Inductive stale_test := StaleIfSomeNew | StaleIfDisjoint.
+Definition mem_id (d : nat) (l : list nat) : bool := existsb (Nat.eqb d) l.
+Definition stored_applies (t : stale_test) (cur cons : list nat) : bool :=
+  match t with
+  | StaleIfSomeNew => forallb (fun d => mem_id d cons) cur     (* not (current_set - constraint_set) *)
+  | StaleIfDisjoint => existsb (fun d => mem_id d cons) cur    (* not current_set.isdisjoint(constraint_set) *)
+  end.
+Definition model_stale_test : stale_test := StaleIfSomeNew.
+Definition stored_narrow_with (t : stale_test) (cur cons : list nat) (v : value) (c : cond) (pol : bool) : value :=
+  if stored_applies t cur cons then narrow v c pol else v.
+Definition stored_narrow := stored_narrow_with model_stale_test.
